@@ -30,7 +30,7 @@ async fn main() {
     silence_stdout();
     install_panic_hook();
     let mut sink = Sink::new(&args);
-    let (n_hist, positions): (usize, Vec<usize>) = if args.thorough() { (30, vec![8, 20, 35, 55, 80]) } else { (4, vec![8, 25, 45]) };
+    let (n_hist, positions): (usize, Vec<usize>) = if args.thorough() { (30, vec![8, 20, 35, 55, 80]) } else { (3, vec![8, 25, 45]) };
     let mut notes: std::collections::BTreeMap<String, u64> = Default::default();
     for h in 0..n_hist {
         for (pi, pos) in positions.iter().enumerate() {
@@ -61,9 +61,19 @@ async fn main() {
                 let mut fired = false;
                 let mut interrupted: Option<usize> = None;
                 if p < 6 {
-                    for _ in 0..10 {
-                        if g.w.tester.runtime.state_label() == "signing" {
-                            break;
+                    let mut idle_ready = 0;
+                    for _ in 0..14 {
+                        match g.w.tester.runtime.state_label() {
+                            "signing" => break,
+                            "ready" => {
+                                idle_ready += 1;
+                                if idle_ready >= 2 {
+                                    // nothing left to sign at this time point: a new immutable file opens a round
+                                    g.w.immutable_up().await;
+                                    idle_ready = 0;
+                                }
+                            }
+                            _ => {}
                         }
                         g.w.tick().await;
                     }
